@@ -77,6 +77,7 @@ class Ctx:
         self.sitectr = itertools.count()
         self.notes = []
         self.approx = False   # True once the path went through a havoc / an under-determined callee contract
+        self.prange = []      # stack of dicts(var=iteration index term, tid=thread id term, cell0=first cell id of the iteration)
 
     # -- path condition
     def assume(self, c):
@@ -170,6 +171,16 @@ class Ctx:
             self.may_raise(bad, 'IndexError', site)
 
     def on_write(self, t):
+        if self.prange:
+            pr = self.prange[-1]
+            if t.cell.id < pr['cell0']:
+                # a store to an array shared between prange iterations: its leading index must be the
+                # iteration index (or this thread's id) -- iterations then write disjoint locations
+                m0 = t.imap[0] if t.imap else None
+                ok = False
+                if m0 is not None and m0[0] == 'fix':
+                    ok = Or(O.eq(m0[1], pr['var']), O.eq(m0[1], pr['tid'])) if pr.get('tid') is not None else O.eq(m0[1], pr['var'])
+                self.oblige("prange-frame:iteration-writes-own-slice@%s" % next(self.sitectr), ok, 'frame')
         org = t.cell.origin
         if org.startswith('param:') and self.frame_checked:
             nm = org[len('param:'):]
@@ -620,6 +631,19 @@ class Frame:
         it = self.ev(st.iter)
         seq = self.as_sequence(it)
         spec = self.I.world.loop_spec(self.qualname, myord)
+        is_prange = getattr(seq, 'prange', False)
+        if is_prange and spec is None and isinstance(O.simp(seq.count), int):
+            items = [seq.item(i) for i in range(O.simp(seq.count))]
+            for x in items:
+                self.assign(st.target, x)
+                self.ctx.prange.append({'var': x, 'tid': O.fresh_int('tid'), 'cell0': next(Cell._ctr)})
+                try:
+                    self.block(st.body)
+                except (_Break, _Continue):
+                    pass
+                finally:
+                    self.ctx.prange.pop()
+            return
         if isinstance(seq, list) and spec is None:
             if len(seq) > MAX_UNROLL:
                 raise Unsupported("loop too long to unroll")
@@ -652,7 +676,7 @@ class Frame:
             return list(it.keys())
         if isinstance(it, Iter):
             c = O.simp(it.count)
-            if isinstance(c, int) and it.ghost is None:
+            if isinstance(c, int) and it.ghost is None and not getattr(it, 'prange', False):
                 if c <= MAX_UNROLL:
                     return [it.item(i) for i in range(c)]
             return it
@@ -798,6 +822,13 @@ class Frame:
                     for a in seq.ghost(it):
                         ctx.assume(a)
                 self.assign(target, seq.item(it))
+                if getattr(seq, 'prange', False):
+                    tid = O.fresh_int('tid')
+                    ctx.assume(tid >= 0)
+                    nthr = ctx.ghost.get('numba_threads')
+                    if nthr is not None:
+                        ctx.assume(tid < nthr)
+                    ctx.prange.append({'var': seq.item(it), 'tid': tid, 'cell0': next(Cell._ctr)})
             else:
                 c = self.truth(self.ev(st.test))
                 ctx.assume(c)
@@ -808,6 +839,9 @@ class Frame:
                 pass
             except _Break:
                 exits = True
+            finally:
+                if is_for and getattr(seq, 'prange', False):
+                    ctx.prange.pop()
             if exits:
                 if spec.on_break is None:
                     raise Unsupported("break inside cut loop %s#%s without on_break spec" % (self.qualname, lname))
